@@ -8,6 +8,13 @@ Extraction Language OCaml.
 Extract Constant Z.pow => "(fun x y -> if Big_int_Z.sign_big_int y < 0 then Big_int_Z.zero_big_int else Big_int_Z.power_big_int_positive_big_int x y)".
 Extract Constant Z.log2 => "(fun x -> let rec lg x acc = if Big_int_Z.le_big_int x Big_int_Z.unit_big_int then acc else lg (Big_int_Z.shift_right_big_int x 1) (acc + 1) in Big_int_Z.big_int_of_int (lg x 0))".
 Extract Constant Z.testbit => "(fun x i -> if Big_int_Z.sign_big_int i < 0 then false else Big_int_Z.sign_big_int (Big_int_Z.and_big_int (Big_int_Z.shift_right_big_int x (Big_int_Z.int_of_big_int i)) Big_int_Z.unit_big_int) <> 0)".
+(* lib/Word.v: `wrap w x = x mod 2 ^ w`, `wshr a k = a / 2 ^ k`, `wshl w a k = wrap w (a * 2 ^ k)` are evaluated in every field
+   operation (w is always one of the literal widths 8..128, k a literal shift).  Map them to zarith's bit operations:
+   Z.extract x 0 w is x mod 2^w for every integer x (two's complement for negative x), Z.shift_right is the floor division
+   by 2^k.  5x faster field multiplication; the quick tier of C08 is not affordable without it. *)
+Extract Constant wrap => "(fun w x -> let n = Big_int_Z.int_of_big_int w in if n <= 0 then (if n = 0 then Big_int_Z.zero_big_int else failwith ""wrap: negative width"") else Big_int_Z.extract_big_int x 0 n)".
+Extract Constant wshr => "(fun a k -> if Big_int_Z.sign_big_int k < 0 then Big_int_Z.zero_big_int else Big_int_Z.shift_right_big_int a (Big_int_Z.int_of_big_int k))".
+Extract Constant wshl => "(fun w a k -> if Big_int_Z.sign_big_int k < 0 then Big_int_Z.zero_big_int else wrap w (Big_int_Z.shift_left_big_int a (Big_int_Z.int_of_big_int k)))".
 Extraction "../ocaml/gen_c08/model.ml"
   P PRIMITIVE_ROOTS bfe_new bfe_value bfe_zero bfe_one bfe_mul bfe_add inverse mod_pow primitive_root_of_unity
   xscale xlift xunlift
